@@ -9,10 +9,10 @@
    the last element is the current run.  fin = Live: no decision taken, not seen completed/failed.
 
    NOTE: Generic models LocalBackend._resume_trial WITH patch F-C02-1 (patches/F-C02-1.diff: what
-   std.out holds at the resume is counted as seen).  On a tree without it the driver reports the
-   known finding F-C02-1 (replay findings/C02-late-report-after-resume.json) and the model's
-   t_resume does not correspond; the statement that was proved of the unpatched code is kept in a
-   comment at the end. *)
+   std.out holds at the resume is counted as seen); bk = Legacy is the same logic WITHOUT it.  The
+   driver probes which of the two the tree under test follows, compares with that model, and on a
+   Legacy tree reports the finding F-C02-1 (replay findings/C02-late-report-after-resume.json);
+   the positive theorems below are about Generic, the last theorem refutes the property for Legacy. *)
 From Verif Require Import model.Base model.Fetch proofs.FetchProofs.
 From Coq Require Import Sorting.Sorted.
 
@@ -128,13 +128,17 @@ Example c02_example :
              out st = [(0%nat, 0%Z); (1%nat, 10%Z); (1%nat, 11%Z); (0%nat, 3%Z)].
 Proof. exact example_run. Qed.
 
-(* Statement proved of the code BEFORE patch F-C02-1 (t_resume left [seen] unchanged), kept for the
-   record; the positive theorems then needed the extra hypothesis "no report is written between a
-   PAUSE decision and the end of the worker":
-   Theorem c02_nothing_after_decision_refuted :
-     exists evs st t,
-       Forall (fun e => tuner_ev e = true) evs /\
-       Forall (fun e => match e with Start reps | Resume _ reps => StronglySorted rle reps | _ => True end) evs /\
-       run Generic init evs = (st, None) /\ nth_error (trials st) 0 = Some t /\
-       runs_of t = [ ([(1, 0); (2, 1)], [(1, 0)], Decided);  ([(3, 100)], [(2, 1); (3, 100)], Live) ].
-   (same event list as in c02_late_report_dropped; replay: findings/C02-late-report-after-resume.json) *)
+(* The code BEFORE patch F-C02-1 (bk = Legacy: resume_trial leaves _last_metric_seen_index as it is):
+   the property is FALSE.  Minimal witness = the event list of c02_late_report_dropped: the report b,
+   written between the PAUSE decision and the end of the worker, is the first result delivered
+   after the resume (replay on the real code: findings/C02-late-report-after-resume.json, known
+   finding F-C02-1).  The driver detects which of the two the tree under test follows. *)
+Theorem c02_nothing_after_decision_refuted_legacy :
+  exists evs st t,
+    Forall (fun e => tuner_ev e = true) evs /\
+    Forall (fun e => match e with Start reps | Resume _ reps => StronglySorted rle reps | _ => True end) evs /\
+    run Legacy init evs = (st, None) /\ nth_error (trials st) 0%nat = Some t /\
+    runs_of t = [ ([(1, 0%Z); (2, 1%Z)], [(1, 0%Z)], Decided);
+                  ([(3, 100%Z)], [(2, 1%Z); (3, 100%Z)], Live) ]%Q.
+Proof. exact late_report_witness_legacy. Qed.
+Print Assumptions c02_nothing_after_decision_refuted_legacy.
